@@ -127,7 +127,7 @@ unsafe fn any_local_state(l: &Local, c: &Collector) {
     kani::assume(hc < usize::MAX - 4 && (hc >= 1 || gc >= 1));
     l.handle_count.set(hc);
     let g: usize = kani::any();
-    kani::assume(g & 1 == 0 && g >= 2);
+    kani::assume(g & 1 == 0);   // every clock value, including the starting epoch and the wrap-around
     set_raw_epoch(&c.global.epoch, g);
     if gc > 0 { set_raw_epoch(&l.epoch, (if kani::any() { g } else { g.wrapping_sub(2) }) | 1); }
     l.advance_count.set(kani::any());
@@ -609,7 +609,7 @@ fn c15_defer() {
     let c: &'static Collector = leak(Collector::new());
     let l_store = ManuallyDrop::new(mk_local(c, 2));
     let l: &Local = &l_store;
-    let ge: usize = kani::any(); kani::assume(ge & 1 == 0 && ge >= 2);
+    let ge: usize = kani::any(); kani::assume(ge & 1 == 0);
     set_raw_epoch(&c.global.epoch, ge);
     let announced = ge.wrapping_sub(2) | 1;                  // pinned one epoch behind the clock
     l.guard_count.set(1); set_raw_epoch(&l.epoch, announced);
@@ -651,7 +651,7 @@ fn c15_flush() {
     let c: &'static Collector = leak(Collector::new());
     let l_store = ManuallyDrop::new(mk_local(c, 2));
     let l: &Local = &l_store;
-    let g: usize = kani::any(); kani::assume(g & 1 == 0 && g >= 2);
+    let g: usize = kani::any(); kani::assume(g & 1 == 0);   // every clock value, including the starting epoch and the wrap-around
     set_raw_epoch(&c.global.epoch, g);
     l.guard_count.set(1); set_raw_epoch(&l.epoch, g.wrapping_sub(2) | 1);
     let n: usize = kani::any(); kani::assume(n <= 2);
@@ -790,7 +790,7 @@ fn c18_try_advance_stalled() {
     let (a, b, cc): (&Local, &Local, &Local) = (&a_store, &b_store, &c_store);
     kani::assume((&a.entry as *const Entry as usize) & 7 == 0 && (&b.entry as *const Entry as usize) & 7 == 0 && (&cc.entry as *const Entry as usize) & 7 == 0);
     crate::ebr_impl::sync::list::verif_list::link_raw(&c.global.locals, &[&a.entry, &b.entry, &cc.entry], &[false, true, false]);
-    let g: usize = kani::any(); kani::assume(g & 1 == 0 && g >= 2);
+    let g: usize = kani::any(); kani::assume(g & 1 == 0);   // every clock value, including the starting epoch and the wrap-around
     set_raw_epoch(&c.global.epoch, g);
     set_raw_epoch(&a.epoch, 0);                               // a: not pinned
     set_raw_epoch(&cc.epoch, g.wrapping_sub(2) | 1);          // c: pinned one epoch behind - it blocks the advance
@@ -860,7 +860,7 @@ l3_harness! {
 #[kani::unwind(6)]
 fn c20_fallback_participant_lifecycle() {
     let c: &'static Collector = leak(Collector::new());
-    let ge: usize = kani::any(); kani::assume(ge & 1 == 0 && ge >= 2);
+    let ge: usize = kani::any(); kani::assume(ge & 1 == 0);
     set_raw_epoch(&c.global.epoch, ge);
     // Collector::register by its contract (proved on the real function in c18_register): a fresh
     // participant with one handle, no guard, unpinned, empty bag (kept on the stack: a heap Local costs CBMC minutes)
